@@ -315,6 +315,67 @@ func runCase(t interface{ Fatalf(string, ...any) }, env *stdrun.Env, c Case) {
 	}
 }
 
+// TestPropArch is the CPU-path clause on its own, for the kinds whose SIMD and
+// portable code differ most in structure (hashers, deflate-based decoders): the
+// same input and chunking on the default build (SSE4.2 / AVX2 paths taken) and
+// on the WUFFS_CONFIG__AVOID_CPU_ARCH build must give identical results. Half of
+// the payloads are worst cases for accumulators that defer a modulo (long runs of
+// the largest byte values after a short prefix), up to 200000 bytes.
+func TestPropArch(t *testing.T) {
+	env, err := stdrun.Get()
+	if err != nil {
+		t.Fatal(err)
+	}
+	defer env.Close()
+	if !stdrun.HasVariant("noarch") {
+		t.Skip("no portable build")
+	}
+	var kinds []stdh.Kind
+	for _, k := range env.Kinds {
+		switch k.Pkg() {
+		case "adler32", "crc32", "crc64", "xxhash32", "xxhash64", "sha256", "zlib", "gzip", "deflate":
+			kinds = append(kinds, k)
+		}
+	}
+	rapid.Check(t, func(t *rapid.T) {
+		k := kinds[rapid.IntRange(0, len(kinds)-1).Draw(t, "kind")]
+		var payload []byte
+		desc := "hash-payload"
+		if k.Iface >= stdh.H32 {
+			payload = stdgen.Payload(t, "pl", 200000)
+			if rapid.Bool().Draw(t, "high") {
+				n := 200000 - rapid.IntRange(0, 190000).Draw(t, "hshort")
+				np := rapid.IntRange(0, 300).Draw(t, "hprefix")
+				payload = make([]byte, 0, n)
+				for i := 0; i < np && i < n; i++ {
+					payload = append(payload, byte(0xFF-rapid.IntRange(0, 16).Draw(t, fmt.Sprintf("hp%d", i))))
+				}
+				for len(payload) < n {
+					payload = append(payload, 0xFF)
+				}
+				desc = "high-byte-run"
+			}
+		} else {
+			e := stdgen.Compressed(t, stdgen.Payload(t, "pl", 90000), "enc")
+			if kk, ok := env.Kind(e.Pkg + ".decoder"); ok {
+				k, payload, desc = kk, e.Data, "encoded:"+e.Pkg
+			} else {
+				t.Skip("no kind")
+			}
+		}
+		c := Case{Kind: k.Name, Payload: payload, Source: desc, Pristine: true}
+		c.Plan = stdgen.OneShot
+		if rapid.Bool().Draw(t, "chunked") {
+			c.Plan = stdgen.DrawPlan(t, "plan", len(payload))
+			c.Plan.Closed = true
+			c.Plan.WorkMode = 0
+			c.Plan.DstFill, c.Plan.WorkFill = 0, 0
+		}
+		c.Variant = Variant{Name: "build", Build: "noarch", Seed: 1}
+		runCase(t, env, c)
+	})
+}
+
 func TestProp(t *testing.T) {
 	env, err := stdrun.Get()
 	if err != nil {
